@@ -245,12 +245,108 @@ def _equality(part):
                 part.violation("C08:equality:%s:reflexive comparison raised" % na, {"error": repr(e)})
 
 
+# -- (d) FractionScalar with fraction parts --------------------------------------------------------
+
+FV_FORMS = [
+    (2, (3, 4)), (2, (1, 4)), (1, (3, 2)), (2.5, (0, 1)), (1.5, (1, 1)), (0, (11, 4)), (3, (-1, 4)), (-2, (3, 4)), (-1, (-1, 4)), (-1.25, (0, 1)),
+    (2, (1, 2)), (2.25, (1, 4)), (0.5, (2, 1)), (1, (7, 4)), (2, (6, 8)),
+]
+
+
+def _fraction_forms_task(qts):
+    """every ordered pair of FractionValue forms (proper, improper, fractional number, negative) in
+    one unit, for every unit of the quantity types: the six operators must follow number + num/den."""
+    from fractions import Fraction as Q
+
+    part = Part()
+    amounts = [Q(repr(float(n))) + Q(num, den) for n, (num, den) in FV_FORMS]
+    with worlds.world("posc") as db:
+        for qt in qts:
+            for u in db.GetUnits(qt):
+                c = db.GetDefaultCategory(u)
+                if not c:
+                    continue
+                part.count("fraction_form_units")
+                objs = [FractionScalar(c, FractionValue(n, f), u) for n, f in FV_FORMS]
+                for i, a in enumerate(objs):
+                    for j, b in enumerate(objs):
+                        qa, qb = amounts[i], amounts[j]
+                        truth = {"<": qa < qb, "<=": qa <= qb, ">": qa > qb, ">=": qa >= qb}
+                        for name, op in ORDER:
+                            part.count("evaluations")
+                            try:
+                                g = op(a, b)
+                            except Exception as e:
+                                part.violation("C08:fraction-forms:%s:%r %s %r:raised" % (u, FV_FORMS[i], name, FV_FORMS[j]), {"error": repr(e)})
+                                continue
+                            if g != truth[name]:
+                                part.violation(
+                                    "C08:fraction-forms:%s:%r %s %r" % (u, FV_FORMS[i], name, FV_FORMS[j]),
+                                    {"got": g, "amounts": [float(qa), float(qb)]},
+                                    "from mc import worlds\nfrom barril.units import FractionScalar\nfrom barril.basic.fraction import FractionValue\nwith worlds.world('posc'):\n    a = FractionScalar(%r, FractionValue(%r, %r), %r)\n    b = FractionScalar(%r, FractionValue(%r, %r), %r)\n    print(a, b, a %s b)\n    assert (a %s b) == %r\n"
+                                    % (c, FV_FORMS[i][0], FV_FORMS[i][1], u, c, FV_FORMS[j][0], FV_FORMS[j][1], u, name, name, truth[name]),
+                                )
+                        if qa == qb and i != j:
+                            part.add("nontrivial", ("ff", i, j))
+    return part
+
+
+# -- (e) equality / hash over the derived-quantity graph -------------------------------------------
+
+
+def _graph_equality(part, depth):
+    """all ordered pairs of derived quantities (every ORDER of composition is a distinct state) and of
+    Scalars holding them: == symmetric, != consistent, equal implies equal hash, never raises."""
+    from .. import algebra
+
+    with worlds.world("posc") as db:
+        states, _t = algebra.explore(db, depth)
+        qs = [st.scalar.GetQuantity() for st in states]
+        ss = [Scalar.CreateWithQuantity(q, 1.5) for q in qs]
+        part.count("graph_states", len(states))
+        for kind, objs in (("Quantity", qs), ("Scalar", ss)):
+            hashes = []
+            for o in objs:
+                try:
+                    hashes.append(hash(o))
+                except Exception as e:
+                    hashes.append(None)
+                    part.violation("C08:graph:%s:hash raised" % kind, {"error": repr(e)})
+            for i, a in enumerate(objs):
+                for j, b in enumerate(objs):
+                    part.count("evaluations")
+                    try:
+                        e1, e2, n1 = a == b, b == a, a != b
+                    except Exception as e:
+                        part.violation("C08:graph:%s:%s vs %s:raised" % (kind, algebra.describe(states[i].history), algebra.describe(states[j].history)), {"error": repr(e)})
+                        continue
+                    sig = "C08:graph:%s:%s vs %s" % (kind, algebra.describe(states[i].history), algebra.describe(states[j].history))
+                    sn = "from mc import worlds\nfrom barril.units import Scalar\nwith worlds.world('posc'):\n    a = (%s)\n    b = (%s)\n    %s\n    print(a, b, a == b, hash(a) == hash(b))\n    assert (a == b) == (b == a) and (a != b) == (not a == b) and (a != b or hash(a) == hash(b))\n" % (
+                        algebra.expr(states[i].history), algebra.expr(states[j].history), "a, b = a.GetQuantity(), b.GetQuantity()" if kind == "Quantity" else "a, b = Scalar.CreateWithQuantity(a.GetQuantity(), 1.5), Scalar.CreateWithQuantity(b.GetQuantity(), 1.5)")
+                    if bool(e1) != bool(e2):
+                        part.violation(sig + ":asymmetric", {"a==b": bool(e1), "b==a": bool(e2)}, sn)
+                    if bool(n1) == bool(e1):
+                        part.violation(sig + ":!= inconsistent with ==", {}, sn)
+                    if i == j and not e1:
+                        part.violation(sig + ":not reflexive", {}, sn)
+                    if e1 and hashes[i] is not None and hashes[i] != hashes[j]:
+                        part.violation(sig + ":equal but different hashes", {}, sn)
+                    if e1 and i != j:
+                        part.add("nontrivial", ("graph", kind, i, j))
+                    part.add("outcomes", ("graph", bool(e1)))
+
+
 def _dispatch(task):
     if task[0] == "order":
         return _order_task(task[1])
     if task[0] == "cross":
         return _cross_task(task[1])
+    if task[0] == "fraction_forms":
+        return _fraction_forms_task(task[1])
     p = Part()
+    if task[0] == "graph":
+        _graph_equality(p, task[1])
+        return p
     _equality(p)
     return p
 
@@ -260,13 +356,15 @@ def run(ctx):
         qts = sorted(db.GetQuantityTypes(), key=lambda q: -len(db.GetUnits(q)))
     tasks = [("order", (qts[i::48], ctx.thorough)) for i in range(48)]
     tasks += [("cross", qts[i::8]) for i in range(8)]
-    tasks += [("equality", None)]
+    tasks += [("equality", None), ("graph", 3 if ctx.thorough else 2)]
+    ffq = qts if ctx.thorough else ["length", "temperature", "pressure", "time", "volume", "mass"]
+    tasks += [("fraction_forms", ffq[i::8]) for i in range(8) if ffq[i::8]]
     run_sharded(ctx, _dispatch, tasks)
     c = ctx.part.counters
     ctx.level = "exploration"
     ctx.rule = (
         "(a) every ordered unit pair of every quantity type x probes {less, greater by 1e-6; equal where exact as rationals and in both float directions} x 2 amounts x 4 order operators x both operand orders on Scalar and FractionScalar; "
-        "(b) every ordered pair of quantity types; (c) all ordered pairs of a %d-object zoo; non-trivial = exact-equal probes in different units + equal zoo pairs; outcomes = probe kinds and (equal?, same class?)" % len(zoo())
+        "(b) every ordered pair of quantity types; (c) all ordered pairs of a %d-object zoo; (d) all ordered pairs of 15 FractionValue forms (proper, improper, fractional number, negative) in every unit of 6 (thorough: all) quantity types x 4 order operators; (e) all ordered pairs of the derived quantities of the depth-2 (thorough 3) composition graph, as Quantity and as Scalar: symmetric, consistent, hash-consistent; non-trivial = exact-equal probes in different units + equal zoo pairs; outcomes = probe kinds and (equal?, same class?)" % len(zoo())
     )
     ctx.states = c.get("pairs", 0)
     ctx.transitions = c.get("evaluations", 0)
